@@ -3,7 +3,7 @@
 (* C12 verdict path: trace validation of OBSERVATIONS OF THE REAL          *)
 (* serialization.Marshal / Unmarshal against the round-trip law of         *)
 (* Serialization.tla.  One state per trace line; total: a line that        *)
-(* contradicts the law prints <<"BAD", id, line, reason>>.                 *)
+(* contradicts the law prints "BAD|id|line|reason".                 *)
 (*                                                                         *)
 (* A line is  [ev |-> "ser", id, in, enc, dec, out, deq, teq, pclass, ..]: *)
 (*   in / out  abstract shapes (grammar of Serialization.tla) of the value *)
@@ -19,7 +19,7 @@
 EXTENDS Serialization
 
 Trace == ndJsonDeserialize("trace.ndjson")
-ASSUME TLCSet(1, 0) /\ TLCSet(2, 0) /\ TLCSet(3, 0) /\ TLCSet(4, 0) /\ TLCSet(5, 0)
+ASSUME TLCSet(1, 0) /\ TLCSet(2, 0) /\ TLCSet(3, 0) /\ TLCSet(4, 0) /\ TLCSet(5, 0) /\ TLCSet(6, 0)
 
 VARIABLES l
 vars == <<l>>
@@ -43,12 +43,12 @@ Next == /\ l <= Len(Trace)
                r == ObsReason(e)
                a == Agrees(e, AsIs)
                f == Agrees(e, Fixed)
-           IN /\ (r # "" => PrintT(<<"BAD", e.id, l, r>>))
+           IN /\ (r # "" => PrintT("BAD|" \o e.id \o "|" \o ToString(l) \o "|" \o r) /\ Bump(6))    \* one string: TLC wraps long tuples
               /\ IF a /\ f THEN Bump(2) ELSE IF a THEN Bump(3) ELSE IF f THEN Bump(4)
-                 ELSE Bump(5) /\ PrintT(<<"DRIFT", e.id, l, e.enc, e.dec>>)
+                 ELSE Bump(5) /\ PrintT("DRIFT|" \o e.id \o "|" \o ToString(l) \o "|" \o e.enc \o "," \o e.dec)
 Spec == Init /\ [][Next]_vars
 
 Max2(a, b) == IF a > b THEN a ELSE b
 HW == TLCSet(1, Max2(l, TLCGet(1)))
-Post == PrintT(<<"HW", TLCGet(1)>>) /\ PrintT(<<"STAT", TLCGet(2), TLCGet(3), TLCGet(4), TLCGet(5)>>)
+Post == PrintT(<<"HW", TLCGet(1)>>) /\ PrintT(<<"STAT", TLCGet(2), TLCGet(3), TLCGet(4), TLCGet(5), TLCGet(6)>>)
 ================================================================================
